@@ -47,7 +47,7 @@ from .messages import (
 )
 from skepticoin.__version__ import __version__
 import random
-from skepticoin.consensus import validate_block_by_itself, validate_block_in_coinstate
+from skepticoin.consensus import validate_block_by_itself, validate_block_in_coinstate, ValidateBlockHeaderError
 
 LISTENING_SOCKET = "LISTENING_SOCKET"
 IRRELEVANT = "IRRELEVANT"  # TODO don't use a string for a port number
@@ -477,6 +477,11 @@ class ConnectedRemotePeer(RemotePeer):
 
             try:
                 validate_block_by_itself(block, int(time()))
+
+                # also for blocks that are not validated in full below (bulk download): the by-height index of the chain
+                # state has no place for a block that states another height than its parent's plus one
+                if block.height != coinstate_prior.block_by_hash[block.header.summary.previous_block_hash].height + 1:
+                    raise ValidateBlockHeaderError("Block's reported height incorrect.")
             except Exception as e:
                 self.local_peer.logger.info(
                     "%15s at height=%d, block received is invalid: %s, error = %s" % (
